@@ -145,6 +145,18 @@ def float_corr(refs, x):
     return out
 
 
+def fragile_constant(rows):
+    """True if some row is constant but its float mean is not that constant
+    (e.g. [0.1, 0.1, 0.1]): the code's centred row is then rounding noise
+    instead of zeros and its correlation is numerically meaningless (the exact
+    value is 0, Pearson being undefined). Such an iteration is treated as a
+    tie between all leaves."""
+    for r in np.atleast_2d(np.asarray(rows, dtype=float)):
+        if r.size and np.ptp(r) == 0 and r.mean() != r[0]:
+            return True
+    return False
+
+
 def subset_problems(subset, n_markers, size):
     """the C02 clause on one drawn subset"""
     probs = []
